@@ -86,6 +86,9 @@ func runC02(rc *RunCtx) {
 					}
 				}
 			}
+			if i%20 == 7 {
+				loopBackCycle(e, Acct(i%NAccounts), byte(1+i%200))
+			}
 			if len(done) == 0 {
 				continue
 			}
